@@ -164,6 +164,38 @@ pub fn check(ctx: &mut Ctx) {
             F::Skip(w) => ctx.case("model", "", "skip", serde_json::json!({"why": w.split(':').next().unwrap_or("").to_string()})),
         }
     }
+    // a limit on a LIVE table: on a terminal the post-aggregate stages run again for every frame
+    // (a fresh table each time); the last frame must be the limit applied to the final table — the
+    // same rows a non-terminal run prints — for head and tail limits, also when |N| exceeds the
+    // number of groups
+    let nlive = ctx.budget(96, 2400);
+    for _ in 0..nlive {
+        let mut r = ctx.rng.fork();
+        let nrows = 3 + r.below(18);
+        let input = agg_docs(&mut r, nrows);
+        let nlim = *r.pick(&[1i64, 2, 3, 5, 8, -1, -2, -3, -5, -8]);
+        let q = match r.below(4) {
+            0 => format!("* | json | count by k | limit {}", nlim),
+            1 => format!("* | json | count, sum(n) by k | sort by k | limit {}", nlim),
+            2 => format!("* | json | sum(n) as s by k, m | limit {}", nlim),
+            _ => format!("* | json | count by k | limit {} | limit {}", nlim, if nlim > 0 { -2 } else { 2 }),
+        };
+        let key = ckey(&q, &input);
+        let plain = super::c16::run_pipeline(&q, &input, None, false, 1, 100, vec![]);
+        let live = super::c16::run_pipeline(&q, &input, Some((40, 160)), true, r.next(), *r.pick(&[100usize, 100, 60, 30]), vec![]);
+        let info = serde_json::json!({"query": q, "input": String::from_utf8_lossy(&input)});
+        if !plain.compiled || !live.compiled || plain.panicked.is_some() || live.panicked.is_some() || plain.hung || live.hung {
+            ctx.case("limit-on-live-table", &key, "viol", serde_json::json!({"class": "", "what": "run did not complete", "panic": live.panicked.or(plain.panicked), "case": info}));
+            continue;
+        }
+        let frames = super::c16::split_frames(&String::from_utf8_lossy(&live.bytes));
+        let last = frames.last().cloned().unwrap_or_default();
+        let plain_text = String::from_utf8_lossy(&plain.bytes).to_string();
+        match super::c16::frame_vs_plain(&last, &plain_text, 160, 40, true) {
+            None => ctx.case("limit-on-live-table", &key, "pass", serde_json::json!({"query": q, "frames": frames.len()})),
+            Some(why) => ctx.case("limit-on-live-table", &key, "viol", serde_json::json!({"class": "", "what": format!("the last frame of a terminal run is not the limit applied to the final table: {}", why), "last_frame": last, "non_terminal_output": plain_text, "frames": frames.len(), "case": info})),
+        }
+    }
     // static rules, on shard 0
     if ctx.shard == 0 {
         for (q, want_ok) in [
